@@ -181,7 +181,14 @@ static void failHook(int fd, bool isSend, int err) { for (int i = 0; i < C.nent;
 // ---------------------------------------------------------------- script execution (server thread only)
 static bool allSettled() {
   if (C.unresolvedEstab > 0) return false;
-  for (int i = 0; i < C.nent; ++i) { Ent& e = C.ent[i]; if (e.kind == K_CLIENT && !e.removed && e.alive) { if (e.failedIO) return false; if (!e.suspended && simnet::queued(e.fd) > 0) return false; } }
+  for (int i = 0; i < C.nent; ++i) { Ent& e = C.ent[i];
+    if (e.kind == K_CLIENT && !e.removed && e.alive) {
+      if (e.failedIO) return false;                                                    // a failed read/write must be followed by onClosed
+      if (!e.suspended && simnet::queued(e.fd) > 0) return false;                      // readable and registered for reading: must be dispatched
+      if (((Server::Client*)e.handle)->getSendBufferSize() > 0 && simnet::peerSpace(e.fd) > 0) return false;   // writable with backlog: must be served
+    }
+    if (e.kind == K_LISTENER && !e.removed && e.alive && simnet::acceptQueueLen((int)((Socket*)e.handle)->getFileDescriptor()) > 0) return false;   // acceptable: must be served
+  }
   return C.peersDone >= C.peersTotal;
 }
 static void execOp(int code, int slot, int64_t arg, Ent* self) {
